@@ -7,7 +7,7 @@ from . import nbk
 RULES = {
     "c2n": "R-C07-3", "sizes-with-null": "R-C07-1", "source": "R-C07-1",
     "filter-op": "R-C07-3", "threshold": "R-C07-3", "filter-extra": "R-C07-3", "filter-looser": "R-C07-3",
-    "cost-domain": "R-C07-2", "cost-term": "R-C07-2",
+    "cost-domain": "R-C07-2", "cost-term": "R-C07-2", "cost-closed": "R-C07-2",
     "matrix-domain": "R-C07-2", "matrix-alloc": "R-C07-2", "matrix-cover": "R-C07-2",
     "append": "R-C07-4", "append-unique": "R-C07-4",
     "cap-init": "R-C07-5", "cap-const": "R-C07-5", "growth-test": "R-C07-5", "growth-same": "R-C07-5", "growth-positive": "R-C07-5",
